@@ -56,6 +56,9 @@ func fieldAccesses(fns []*ssa.Function, fv *types.Var) []access {
 						continue
 					}
 					out = append(out, access{fn, x, "load", fa})
+					if !isRefType(x.Type()) {
+						continue // a copied value (error, int, ...) is not shared state
+					}
 					for _, u := range *x.Referrers() {
 						switch y := u.(type) {
 						case *ssa.MapUpdate:
@@ -83,6 +86,14 @@ func fieldAccesses(fns []*ssa.Function, fv *types.Var) []access {
 		})
 	}
 	return out
+}
+
+func isRefType(t types.Type) bool {
+	switch t.Underlying().(type) {
+	case *types.Map, *types.Slice, *types.Pointer, *types.Chan:
+		return true
+	}
+	return false
 }
 
 // structField resolves a (possibly nested, anonymous-struct) field: ("Protocol", "input", "transactions").
@@ -455,6 +466,9 @@ func checkOwn(c *Ctx) {
 			}
 			for e := range P.Effects(fn) {
 				i := strings.Index(e, ":")
+				if i < 0 {
+					continue
+				}
 				kind, path := e[:i], e[i+1:]
 				if kind == "call" || kind == "panic" || kind == "go" {
 					continue
